@@ -941,6 +941,10 @@ CONSTRUCTED = [
     # nested keys, values with spaces
     {"universe": "nested", "fresh": True, "ops": _adds([{"a": 0, "n": {"x": 0, "y": "p q"}}, {"a": 0, "n": {"x": 1, "y": "r"}}, {"a": 1, "n": 5}])
         + [_v(), AGAIN, {"op": "rekey", "i": 1, "sp": {"a": 1, "n": {"x": 2, "y": "p q"}}}, _v(), _v(None, "x/{n.x}/{{auto}}"), _v(None, "a/{a}/{{auto}}")]},
+    # the same key NAMES in the same order at different nesting positions (n, p.q, r next to n, p, q.r), sharing the key n
+    {"universe": "nested", "fresh": False, "ops": _adds([{"n": 0, "p": {"q": 1}, "r": 0}, {"n": 10, "p": 1, "q": {"r": 2}}]) + [_v(), AGAIN]
+        + _adds([{"n": 20, "p": {"q": 2}, "r": 0}]) + [_v(), AGAIN, {"op": "rekey", "i": 0, "sp": {"n": 0, "p": 1, "q": {"r": 5}}}, _v(), AGAIN]},
+    {"universe": "nested", "fresh": True, "ops": _adds([{"n": 10, "p": 1, "q": {"r": 2}}, {"n": 0, "p": {"q": 1}, "r": 0}, {"n": 1, "p": {"q": 1}, "r": 1}]) + [_v(), AGAIN]},
     # int / equal float pair under one key
     {"universe": "homog", "fresh": False, "ops": _adds([{"b": 1}, {"b": 1.0}, {"b": 2.5}]) + [_v(), AGAIN, {"op": "remove", "i": 2}, _v(), AGAIN]},
     # subset + custom path updates
